@@ -327,6 +327,14 @@ def run_driver_parallel(scenarios, wd, tag="drv", nproc=4, timeout=600, target="
     return events, rc, err
 
 
+def stable_sample(items, n, seed):
+    """The behaviours printed by several simulation workers arrive in an order that depends on timing: sort them, then take a
+    seeded sample, so that the same seed always replays the same set."""
+    items = sorted(items, key=lambda x: json.dumps(x, sort_keys=True))
+    random.Random(seed).shuffle(items)
+    return items[:n]
+
+
 def split_scenarios(events):
     """Group events by scenario id (Begin .. End)."""
     out, cur, cid = {}, None, None
